@@ -189,6 +189,9 @@ class AverageLearner(BaseLearner):
         self.npoints += 1
 
     def tell_pending(self, n: int) -> None:
+        if n in self.data:
+            # The point has already been evaluated.
+            return
         self.pending_points.add(n)
 
     @property
